@@ -810,6 +810,7 @@ class CInterp:
             self.merge_hook(self, env, c, inner)
 
     relational_merge = False
+    merge_pure = True  # side-effect-free &&, ||, ?: become one term instead of two paths (a contract that needs polynomial terms turns it off)
     merge_hook = None
     decl_hook = None
     assign_hook = None  # assign_hook(interp, env, variable name, value) -> value | None, for `name = expr;` on a named variable
@@ -1268,6 +1269,11 @@ class CInterp:
         et = getattr(self, "type_arrays", {}).get(et, et)
         import re as _re
         m = _re.match(r"^\w+\s*\[(\d+)\]$", et)
+        if isinstance(base, Ptr) and base.region is not None and base.region.local is not None and is_sym(idx):
+            # a small local table indexed by an expression the path condition determines (masks[n % 4])
+            v = self.ex.determined_int(term(idx))
+            if v is not None:
+                idx = v
         flat = isinstance(base, Ptr) and base.region is not None and (base.region.local is None or not any(isinstance(x, (Region, Ptr)) for x in base.region.local))
         if m and flat:
             stride = int(m.group(1))
@@ -1385,7 +1391,7 @@ class CInterp:
             return v
         if op in ("&&", "||"):
             a = self.rv(self.expr(n["inner"][0], env))
-            if isinstance(a, (SBool, SNum)) and self._pure(n["inner"][1]):
+            if self.merge_pure and isinstance(a, (SBool, SNum)) and self._pure(n["inner"][1]):
                 # both operands free of side effects and traps: one Boolean term instead of two paths (falls back to forking if the
                 # right operand cannot be evaluated in the current state)
                 at = core.as_bool_term(a)
@@ -1437,7 +1443,7 @@ class CInterp:
 
     def e_ConditionalOperator(self, n, env):
         c = self.rv(self.expr(n["inner"][0], env))
-        if isinstance(c, (SBool, SNum)) and self._pure(n["inner"][1]) and self._pure(n["inner"][2]):
+        if self.merge_pure and isinstance(c, (SBool, SNum)) and self._pure(n["inner"][1]) and self._pure(n["inner"][2]):
             ct = core.as_bool_term(c)
             if not (z3.is_true(z3.simplify(ct)) or z3.is_false(z3.simplify(ct))):
                 try:
